@@ -214,8 +214,9 @@ SPEC = {
     'id': 'C07',
     'rule': ('Hypothesis cases over 10 entry points (generate_sum_n_bits, generate_sum_weighted_bits_efficient/naive, '
              'add_sum_n_bits, add_sum_n_bits_easy, add_sum_n_weighted_bits(_naive), add_sum_two_numbers, '
-             'add_sum_two_numbers_with_shift with shift 0..|a|+3, add_sum_pow2_m1): n 1-14 (24 thorough), weight vectors '
-             'with heavy ties, basis XAIG/AIG as enum and as upper/lower/mixed-case string, both endiannesses, operands = '
+             'add_sum_two_numbers_with_shift with shift 0..|a|+3 (boundary shifts |a|-1..|a|+2 weighted up), add_sum_pow2_m1): '
+             'generate_* n 1-14 (24 thorough), add_* forms 1-40 operands taken from host gates (2^k-1 block sizes 3/7/15/31 '
+             'crossed), two-number adders with lengths 1-20 incl. lopsided pairs, weight vectors with heavy ties and with gaps (0-19), basis XAIG/AIG as enum and as upper/lower/mixed-case string, both endiannesses, operands = '
              'fresh inputs or arbitrary (also repeated) gates of a generated host circuit, seeded uuid stream. Oracle: '
              'bit-sliced integer arithmetic on reference value vectors (all 2^n rows up to 14 inputs, else 2048 seeded + '
              'corner rows): sum(out*2^level) == sum(in*2^weight), distinct levels, a + b*2^shift, returned labels exist; '
